@@ -10,6 +10,7 @@
 ATOMIC_STATIC_INLINE
 void parsec_mfence( void )
 {
+    PARSEC_VERIF_YIELD(PARSEC_VERIF_K_FENCE, 0);
     __sync_synchronize();
 }
 
@@ -21,6 +22,7 @@ int parsec_atomic_cas_int32( volatile int32_t* location,
                              int32_t old_value,
                              int32_t new_value )
 {
+    PARSEC_VERIF_YIELD(PARSEC_VERIF_K_CAS, location);
     return (__sync_bool_compare_and_swap(location, old_value, new_value) ? 1 : 0);
 }
 
@@ -31,6 +33,7 @@ int parsec_atomic_cas_int64( volatile int64_t* location,
                              int64_t old_value,
                              int64_t new_value )
 {
+    PARSEC_VERIF_YIELD(PARSEC_VERIF_K_CAS, location);
     return (__sync_bool_compare_and_swap(location, old_value, new_value) ? 1 : 0);
 }
 #else
@@ -45,6 +48,7 @@ int parsec_atomic_cas_int128( volatile __int128_t* location,
                               __int128_t old_value,
                               __int128_t new_value )
 {
+    PARSEC_VERIF_YIELD(PARSEC_VERIF_K_CAS, location);
     return (__sync_bool_compare_and_swap(location, old_value, new_value) ? 1 : 0);
 }
 #else
@@ -59,6 +63,7 @@ ATOMIC_STATIC_INLINE
 int32_t parsec_atomic_fetch_or_int32( volatile int32_t* location,
                                       int32_t value )
 {
+    PARSEC_VERIF_YIELD(PARSEC_VERIF_K_RMW, location);
     return __sync_fetch_and_or(location, value);
 }
 
@@ -67,6 +72,7 @@ ATOMIC_STATIC_INLINE
 int32_t parsec_atomic_fetch_and_int32( volatile int32_t* location,
                                        int32_t value )
 {
+    PARSEC_VERIF_YIELD(PARSEC_VERIF_K_RMW, location);
     return __sync_fetch_and_and(location, value);
 }
 
@@ -75,6 +81,7 @@ ATOMIC_STATIC_INLINE
 int64_t parsec_atomic_fetch_or_int64( volatile int64_t* location,
                                       int64_t value )
 {
+    PARSEC_VERIF_YIELD(PARSEC_VERIF_K_RMW, location);
     return __sync_fetch_and_or(location, value);
 }
 
@@ -83,6 +90,7 @@ ATOMIC_STATIC_INLINE
 int64_t parsec_atomic_fetch_and_int64( volatile int64_t* location,
                                        int64_t value )
 {
+    PARSEC_VERIF_YIELD(PARSEC_VERIF_K_RMW, location);
     return __sync_fetch_and_and(location, value);
 }
 
@@ -136,6 +144,7 @@ __int128_t parsec_atomic_fetch_and_int128( volatile __int128_t* location,
 ATOMIC_STATIC_INLINE
 int32_t parsec_atomic_fetch_add_int32(volatile int32_t* l, int32_t v)
 {
+    PARSEC_VERIF_YIELD(PARSEC_VERIF_K_RMW, l);
     return __sync_fetch_and_add(l, v);
 }
 
@@ -143,6 +152,7 @@ int32_t parsec_atomic_fetch_add_int32(volatile int32_t* l, int32_t v)
 ATOMIC_STATIC_INLINE
 int64_t parsec_atomic_fetch_add_int64(volatile int64_t* l, int64_t v)
 {
+    PARSEC_VERIF_YIELD(PARSEC_VERIF_K_RMW, l);
     return __sync_fetch_and_add(l, v);
 }
 
